@@ -1,6 +1,6 @@
 """./check <ID> --replay <path>: re-run one recorded failing case against the current tree.
 
-A binding that can re-run a replay file defines `replay(obj) -> (failed: bool, detail)`.
+A binding that can re-run a replay file defines `replay_case(obj) -> (failed: bool, detail)`.
 For the others the recorded case is printed (it contains the scenario, what was expected
 and what was observed) and the quick tier is re-run, which regenerates the case."""
 import importlib
@@ -11,7 +11,7 @@ import sys
 def main(prop, path):
     obj = json.load(open(path))
     mod = importlib.import_module("bind." + prop.lower())
-    fn = getattr(mod, "replay", None)
+    fn = getattr(mod, "replay_case", None)
     if fn is None:
         print(json.dumps(obj, indent=1)[:6000])
         print("bind.%s has no single-case replay; re-running the quick tier" % prop.lower())
